@@ -16,10 +16,14 @@ func lemmaBlankLine(rest string) (chunk, remaining string, hasNewline bool) {
 	return NextChunk("\n" + rest)
 }
 
-func lemmaScanData(f *FieldParser, x string, out *Field) bool  { return f.scanSegment("data: "+x, out) }
-func lemmaScanEvent(f *FieldParser, x string, out *Field) bool { return f.scanSegment("event: "+x, out) }
-func lemmaScanID(f *FieldParser, x string, out *Field) bool    { return f.scanSegment("id: "+x, out) }
-func lemmaScanRetry(f *FieldParser, x string, out *Field) bool { return f.scanSegment("retry: "+x, out) }
+func lemmaScanData(f *FieldParser, x string, out *Field) bool { return f.scanSegment("data: "+x, out) }
+func lemmaScanEvent(f *FieldParser, x string, out *Field) bool {
+	return f.scanSegment("event: "+x, out)
+}
+func lemmaScanID(f *FieldParser, x string, out *Field) bool { return f.scanSegment("id: "+x, out) }
+func lemmaScanRetry(f *FieldParser, x string, out *Field) bool {
+	return f.scanSegment("retry: "+x, out)
+}
 func lemmaScanComment(f *FieldParser, x string, out *Field) bool {
 	return f.scanSegment(": "+x, out)
 }
